@@ -433,7 +433,8 @@ Definition view (G : nxg) (g : N) : list node * list edge :=
   (filter (in_g g) (gn G), filter (in_ids (ids_in G g)) (ge G)).
 
 (* ------------------------------------------------------------------------------------------ *)
-(* merge_nodes (shared store only): nx.contracted_nodes(G, u, v, copy=False) + property policy *)
+(* merge_nodes (shared store only): nx.contracted_nodes(G, u, v, copy=False), removal of the      *)
+(* 'contraction' bookkeeping from the survivor's links, property policy                          *)
 (* ------------------------------------------------------------------------------------------ *)
 
 Definition pair_ltb (a b : N * N) : bool :=
@@ -462,6 +463,13 @@ Definition remap_edge (u v : N) (G : nxg) (e : edge) : nxg :=
 Definition contract (G : nxg) (u v : N) : nxg :=
   let es := filter (edge_touches v) (ge G) in
   fold_left (remap_edge u v) es (nx_remove_node G v).
+
+(* merge_nodes then pops networkx's 'contraction' bookkeeping from every link of the surviving node
+   (for nbr in adj[real_node]: edges[real_node, nbr].pop('contraction', None)) *)
+Definition drop_key (k : N) (ps : props) : props := filter (fun kv => negb (N.eqb (fst kv) k)) ps.
+Definition strip_edge (u : N) (e : edge) : edge :=
+  if edge_touches u e then (fst (fst e), snd (fst e), drop_key k_contraction (snd e)) else e.
+Definition strip_contraction (u : N) (G : nxg) : nxg := mkG (gn G) (map (strip_edge u) (ge G)).
 
 Definition policy_value (pol : N) (mine : pval) (other : option pval) : option pval :=  (* None = KeyError *)
   if N.eqb pol s_discard then Some mine
@@ -494,7 +502,7 @@ Definition s_merge (G : nxg) (g n g2 : N) (pol : option (list (N * N))) : nxg * 
       | Some v =>
           match nx_node G u, nx_node G v with
           | Some mine, Some other =>
-              let G1 := contract G u v in
+              let G1 := strip_contraction u (contract G u v) in
               let cleared := nx_set_node G1 u [] in
               match pol with
               | None => (nx_set_node G1 u mine, Ok RUnit)
